@@ -125,7 +125,8 @@ class Gen:
         if origin is list:
             n = 0 if self.v == 0 else 2
             et = args[0] if args else typing.Any
-            return [self.value(et, depth + 1) for _ in range(n)]
+            items = [self.value(et, depth + 1) for _ in range(n)]
+            return tuple(items) if self.v == 4 and et in (str, int) else items     # tuples are encoded like lists
         if origin is dict:
             vt = args[1] if len(args) > 1 else typing.Any
             keys = (list(MARKERS[: 1 + self.tick() % 3]) if self.marker_keys else []) + SAFE_KEYS[: 1 + self.tick() % 3]
@@ -208,6 +209,25 @@ def check_instance(x, where):
     j2 = serialize_extraction(y)
     if j2 != j:
         return {"target": f"{name}.from_json", "inputs": where, "expected": "identical to_json()", "observed": _first_diff(j, j2)}
+    d = payload_diff(x, y)
+    if d:
+        return {"target": f"{name}.from_json", "inputs": where, "expected": "identical image/attachment bytes", "observed": d}
+    for meth in ("get_full_text",):
+        if hasattr(x, meth):
+            try:
+                a_, b_ = getattr(x, meth)(), getattr(y, meth)()
+            except Exception:  # noqa  (views of synthetic instances may not be computable: other properties)
+                continue
+            if a_ != b_:
+                return {"target": f"{name}.from_json", "inputs": where, "expected": f"identical {meth}()", "observed": f"{a_!r:.60} vs {b_!r:.60}"}
+    if hasattr(x, "iterate_units"):
+        try:
+            ua = [serialize_extraction(u) for u in x.iterate_units()]
+            ub = [serialize_extraction(u) for u in y.iterate_units()]
+        except Exception:  # noqa
+            ua = ub = None
+        if ua != ub:
+            return {"target": f"{name}.from_json", "inputs": where, "expected": "identical units", "observed": _first_diff(ua, ub)}
     j0 = serialize_extraction(x, include_binary=False)
     want = shadow_json(binfree(x))
     if j0 != want:
@@ -218,6 +238,40 @@ def check_instance(x, where):
     except Exception as e:  # noqa
         return {"target": f"{name}.to_json(binary excluded)", "inputs": where, "expected": "json.dumps succeeds", "observed": f"{type(e).__name__}: {e}"}
     return None
+
+
+def payload_diff(x, y, path="$"):
+    """Binary leaves of x must come back as binary leaves with the same bytes."""
+    if isinstance(x, io.BytesIO):
+        return "" if isinstance(y, io.BytesIO) and y.getvalue() == x.getvalue() else f"{path}: BytesIO({x.getvalue()!r:.40}) came back as {_short(y)}"
+    if isinstance(x, (bytes, bytearray)):
+        return "" if isinstance(y, (bytes, bytearray)) and bytes(y) == bytes(x) else f"{path}: {bytes(x)!r:.40} came back as {_short(y)}"
+    if dataclasses.is_dataclass(x) and not isinstance(x, type):
+        if type(y) is not type(x):
+            return f"{path}: {type(x).__name__} came back as {type(y).__name__}"
+        for f in dataclasses.fields(x):
+            d = payload_diff(getattr(x, f.name), getattr(y, f.name), f"{path}.{f.name}")
+            if d:
+                return d
+        return ""
+    if isinstance(x, dict) and isinstance(y, dict):
+        for k in x:
+            d = payload_diff(x[k], y.get(k), f"{path}[{k!r}]")
+            if d:
+                return d
+        return ""
+    if isinstance(x, (list, tuple)) and isinstance(y, (list, tuple)) and len(x) == len(y):
+        for i, (a, b) in enumerate(zip(x, y)):
+            d = payload_diff(a, b, f"{path}[{i}]")
+            if d:
+                return d
+    return ""
+
+
+def _short(v):
+    if isinstance(v, io.BytesIO):
+        return f"BytesIO({v.getvalue()!r:.40})"
+    return f"{type(v).__name__} {v!r:.50}"
 
 
 def _first_diff(a, b, path="$"):
@@ -307,9 +361,13 @@ def cli_shapes():
     from sharepoint2text.parsing.extractors.serialization import serialize_extraction
     a, b = PlainTextContent(content="one"), PlainTextContent(content="two")
     for binary in (False, True):
-        one = cli._serialize_results([a], include_binary=binary)
-        many = cli._serialize_results([a, b], include_binary=binary)
-        none = cli._serialize_results([], include_binary=binary)
+        try:
+            one = cli._serialize_results([a], include_binary=binary)
+            many = cli._serialize_results([a, b], include_binary=binary)
+            none = cli._serialize_results([], include_binary=binary)
+        except Exception as e:  # noqa
+            return {"target": "cli._serialize_results", "inputs": {"include_binary": binary, "results": "0, 1 or 2 results"},
+                    "expected": "object for one result, array otherwise", "observed": f"{type(e).__name__}: {e}"}
         if one != serialize_extraction(a, include_binary=binary) or many != [serialize_extraction(x, include_binary=binary) for x in (a, b)] or none != []:
             return {"target": "cli._serialize_results", "inputs": {"include_binary": binary}, "expected": "object for one, array otherwise", "observed": repr((one, many))[:200]}
         u1 = cli._serialize_unit_results([a], include_binary=binary)
